@@ -1,5 +1,5 @@
 (* C17 — filter equality is sound.  Property theorems only. *)
-From KC Require Import Base Filter FilterProps.
+From KC Require Import Base Filter FilterProps SelectorOrder.
 From Coq Require Import Permutation.
 
 (* Equals / FiltersEqual never report equality for filters that disagree on
@@ -54,3 +54,20 @@ Example C17_nonvacuous :
       (FAnd [mk_nsname [(1%N, 2%N); (3%N, 0%N)]; FNot (mk_labels [(1%N, 1%N)])]) = true
   /\ wf_filter (FSvcFor [(1%N, 1%N); (2%N, 1%N)]).
 Proof. split; [reflexivity | repeat constructor; simpl; intuition discriminate]. Qed.
+
+(* KNOWN FINDING D14, as a theorem: C17_feq_refl_comparable above is about one
+   build (Filter.v takes LabelSelectorAsSelector's result in the order a stable
+   sort gives).  With more than twelve requirements the sort is unstable, and a
+   build is any key-sorted arrangement; two arrangements of the same selector
+   that differ in the order of two requirements on one key compare unequal and
+   accept the same objects. *)
+Theorem C17_builds_of_one_selector_compare_unequal_refuted :
+  forall (input pre : list req) (a b : req) (post : list req),
+  r_key a = r_key b -> req_eqb a b = false ->
+  possible_build input (pre ++ a :: b :: post) ->
+  possible_build input (pre ++ b :: a :: post) /\
+  feq (FSel (SelReqs (pre ++ a :: b :: post))) (FSel (SelReqs (pre ++ b :: a :: post))) = false /\
+  forall ls, selector_matches (SelReqs (pre ++ a :: b :: post)) ls =
+             selector_matches (SelReqs (pre ++ b :: a :: post)) ls.
+Proof. exact builds_of_one_selector_compare_unequal. Qed.
+Print Assumptions C17_builds_of_one_selector_compare_unequal_refuted.
